@@ -735,6 +735,12 @@ func (ps *parser) parseContract() (*Contract, error) {
 		case "attr":
 			k := ps.next().text
 			v := ps.next().text
+			if k == "unreachableret" {
+				// a list of return-site ordinals
+				for ps.peek().kind == "int" && !ps.peek().bol {
+					v += "," + ps.next().text
+				}
+			}
 			c.Attrs[k] = v
 		case "requires", "ensures", "checks":
 			lab := ps.parseLabel()
